@@ -237,7 +237,7 @@ KNOWN = {}
 
 def plan(tier):
     if tier == "quick":
-        return [{"part": "split", "shards": 16, "budget": {"n_examples": 150}}]
+        return [{"part": "split", "shards": 16, "budget": {"n_examples": 450}}]
     return [{"part": "split", "shards": 16, "budget": {"n_examples": 12000}}]
 
 
